@@ -247,6 +247,20 @@ package ipfscluster
 //@   at_call rpc.NewServer assert [authorization-installed] exists i int :: 0 <= i && i < len(opts) && opts[i] == uf("authorizeOption", "rpc.ServerOption", authF)
 //@   modifies *
 
+// the pubsub validators decide on msg.GetFrom(): that is the signer only if every message must carry a valid
+// signature - the pubsub instance is created with signing AND strict signature verification on
+//@ extern pubsub.WithMessageSigning(enabled)
+//@   ensures res == uf("pubsubSigningOption", "pubsub.Option", enabled)
+//@ extern pubsub.WithStrictSignatureVerification(required)
+//@   ensures res == uf("pubsubStrictVerificationOption", "pubsub.Option", required)
+//@ extern pubsub.NewGossipSub(ctx, h, opts)
+//@   modifies nothing
+//@ func newPubSub
+//@   property C07 C02
+//@   at_call pubsub.NewGossipSub assert [messages-are-signed] exists i int :: 0 <= i && i < len(opts) && opts[i] == uf("pubsubSigningOption", "pubsub.Option", true)
+//@   at_call pubsub.NewGossipSub assert [unsigned-messages-are-dropped] exists i int :: 0 <= i && i < len(opts) && opts[i] == uf("pubsubStrictVerificationOption", "pubsub.Option", true)
+//@   modifies *
+
 //@ directive rpc_methods_in_policy newRPCServer DefaultRPCPolicy
 //@   property C07
 
